@@ -1,6 +1,6 @@
 // C20 (d): by-name lookups (lookup() + the six freshen_* functions): a stored name returns an entity bearing that
 // name (the entity itself when the name is unique), an unknown name returns 0, and a lookup made after the caches
-// were invalidated reflects the new content.
+// were invalidated (STALE_ENTRY: the cache still lists a name nobody bears any more) reflects the current content.
 #include "verif.h"
 #include "interrogateDatabase.h"
 #include <string>
@@ -8,8 +8,10 @@
 #ifndef WHICH
 #define WHICH 0
 #endif
+#ifndef STALE_ENTRY
+#define STALE_ENTRY 0
+#endif
 // one-character names over {a,b,c}; the queried name over {a,b,c,d} or empty
-static char abc() { char c = nondet_char(); ASSUME(c >= 'a' && c <= 'c'); return c; }
 
 #if WHICH == 0
 #define MAP _type_map
@@ -43,38 +45,47 @@ static char abc() { char c = nondet_char(); ASSUME(c >= 'a' && c <= 'c'); return
 #define BIT 0x020
 #endif
 
+#if WHICH <= 2
+#define CACHE(db) (WHICH == 0 ? db->_types_by_name : WHICH == 1 ? db->_types_by_scoped_name : db->_types_by_true_name)
+#elif WHICH == 3
+#define CACHE(db) (db->_manifests_by_name)
+#else
+#define CACHE(db) (WHICH == 4 ? db->_elements_by_name : db->_elements_by_scoped_name)
+#endif
+
+// Stored names are enumerated concretely (a,b / b,a / a,a): with symbolic stored names the shape of the cache's
+// std::map<std::string,int> is symbolic and symbolic execution alone takes 5 minutes.  The queried name, the stale
+// cache bits are symbolic.
 extern "C" void harness_c20_lookup() {
-  InterrogateDatabase *db = new InterrogateDatabase;
-  char n1 = abc(), n2 = abc();
-  db->MAP[1].FIELD.assign(1, n1);
-  db->MAP[2].FIELD.assign(1, n2);
-  int qlen = nondet_int();
-  ASSUME(qlen >= 0 && qlen <= 1);
-  char q = nondet_char();
-  ASSUME(q >= 'a' && q <= 'd');
-  std::string name((size_t)qlen, q);
-  int stale = nondet_int();
-  ASSUME((stale & BIT) == 0);            // this cache is stale (as after construction / merge_from), the other bits are arbitrary
-  db->_lookups_fresh = stale;
-
-  int r = db->LOOKUP(name);
-  bool m1 = qlen == 1 && q == n1, m2 = qlen == 1 && q == n2;
-  if (!m1 && !m2) ASSERT(r == 0, "C20 lookup: an unknown name returns 0");
-  else {
-    ASSERT((r == 1 && m1) || (r == 2 && m2), "C20 lookup: a stored name returns an entity bearing that name");
-    if (m1 != m2) ASSERT(r == (m1 ? 1 : 2), "C20 lookup: a unique name returns the entity itself");
+  static const char N1[3] = {'a', 'b', 'a'}, N2[3] = {'b', 'a', 'a'};
+  for (int cfg = 0; cfg < 3; cfg++) {
+    InterrogateDatabase *db = new InterrogateDatabase;
+    char n1 = N1[cfg], n2 = N2[cfg];
+    db->MAP[1].FIELD.assign(1, n1);
+    db->MAP[2].FIELD.assign(1, n2);
+    int qlen = nondet_int();
+    ASSUME(qlen >= 0 && qlen <= 1);
+    char q = nondet_char();
+    ASSUME(q >= 'a' && q <= 'd');
+    char qb[2];
+    qb[0] = qlen ? q : 0; qb[1] = 0;
+    std::string name(qb);
+    int stale = nondet_int();
+    ASSUME((stale & BIT) == 0);          // this cache is stale (as after construction / merge_from), the other bits are arbitrary
+    db->_lookups_fresh = stale;
+#if STALE_ENTRY
+    // the cache still holds an entry of an entity that no longer has that name: it must not be returned
+    CACHE(db)[std::string("d")] = 9;
+#endif
+    int r = db->LOOKUP(name);
+    bool m1 = qlen == 1 && q == n1, m2 = qlen == 1 && q == n2;
+    if (!m1 && !m2) ASSERT(r == 0, "C20 lookup: an unknown name returns 0 (also when a stale cache still lists it)");
+    else {
+      ASSERT((r == 1 && m1) || (r == 2 && m2), "C20 lookup: a stored name returns an entity bearing that name");
+      if (m1 != m2) ASSERT(r == (m1 ? 1 : 2), "C20 lookup: a unique name returns the entity itself");
+    }
+    ASSERT(db->_lookups_fresh == (stale | BIT), "C20 lookup marks exactly its own cache fresh");
+    ASSERT(db->LOOKUP(name) == r, "C20 lookup: asking again gives the same answer");
   }
-  ASSERT(db->_lookups_fresh == (stale | BIT), "C20 lookup marks exactly its own cache fresh");
-  ASSERT(db->LOOKUP(name) == r, "C20 lookup: asking again gives the same answer");
-
-  // new content arrives (what merge_from does): entity 3 is added and the caches are invalidated
-  char n3 = abc();
-  db->MAP[3].FIELD.assign(1, n3);
-  db->_lookups_fresh = 0;
-  int r2 = db->LOOKUP(name);
-  bool m3 = qlen == 1 && q == n3;
-  if (!m1 && !m2 && !m3) ASSERT(r2 == 0, "C20 lookup after reload: an unknown name returns 0");
-  else ASSERT((r2 == 1 && m1) || (r2 == 2 && m2) || (r2 == 3 && m3), "C20 lookup after reload reflects the new content");
-  if (m3 && !m1 && !m2) ASSERT(r2 == 3, "C20 lookup after reload finds an entity that was added");
   WITNESS();
 }
